@@ -286,10 +286,10 @@ def _build_dataset_fetch_select(
         elif (
             col in ds.components
             and ds.components[col].data_type is Integer
-            and (col_type in ("DOUBLE", "FLOAT") or col_type.startswith("DECIMAL"))
+            and (col_type in ("DOUBLE", "FLOAT", "HUGEINT") or col_type.startswith("DECIMAL"))
         ):
-            # ceil / floor / round / trunc … compute on DOUBLE: an Integer component must not
-            # come back as 3.0
+            # ceil / floor / round / trunc … compute on DOUBLE and SUM of BIGINT yields HUGEINT
+            # (fetched as float64): an Integer component must not come back as 3.0
             exprs.append(f'CAST("{col}" AS BIGINT) AS "{col}"')
         else:
             exprs.append(f'"{col}"')
